@@ -44,10 +44,10 @@ func init() {
 			for i, k := range kinds {
 				for s := 0; s < tierPick(tier, 1, 8); s++ {
 					bs = append(bs, core.Batch{Name: fmt.Sprintf("concurrent-%d-%d", i, s), TimeoutS: 600,
-						Params: core.Params(c11Params{Kind: "concurrent", Store: k, Histories: tierPick(tier, 30, 400), Shard: s})})
+						Params: core.Params(c11Params{Kind: "concurrent", Store: k, Histories: tierPick(tier, 60, 400), Shard: s})})
 				}
 				bs = append(bs, core.Batch{Name: fmt.Sprintf("sequential-%d", i), TimeoutS: 600,
-					Params: core.Params(c11Params{Kind: "sequential", Store: k, Histories: tierPick(tier, 20, 600)})})
+					Params: core.Params(c11Params{Kind: "sequential", Store: k, Histories: tierPick(tier, 50, 600)})})
 			}
 			for i, k := range []storeKind{{"badger", false, "r"}, {"mock", false, ""}} {
 				bs = append(bs, core.Batch{Name: fmt.Sprintf("race-%d", i), TimeoutS: 900, Race: true,
